@@ -12,6 +12,9 @@ ALL OTHER VARIABLES DENOTE REAL NUMBERS (a complex unknown is  re + I*im  of two
 Angles: `angle(name)` registers three variables  name (the raw angle, only meaningful as an
 argument of cos / sin / exp(+-I*.)),  cos(name),  sin(name); every product is normalised
 with  sin^2 -> 1 - cos^2, which is a canonical form for Q[i][c,s]/(c^2+s^2-1).
+Square roots / absolute values of non-square expressions P are fresh "root" variables r_P with
+the rewrite r_P^2 -> P (so `vector_norm(x)**2` normalises to sum |x_k|^2); this uses only
+r^2 = P, i.e. it is sound for identities, and assumes P >= 0 where torch would return nan.
 Hence two Polys denote the same function of the real variables (subject to the angle
 relations) iff their dicts are equal: `same()` is an exact decision procedure.
 
@@ -42,6 +45,7 @@ _ids: dict = {"I": 0}
 _nonzero: set = set()
 _sin_to_cos: dict = {}        # sin var id -> cos var id
 _angle: dict = {}             # raw angle var id -> (cos id, sin id)
+_root_of: dict = {}           # root var id -> Poly P   (the variable denotes +sqrt(P); rewrite r^2 -> P)
 
 
 def reset_registry():
@@ -51,6 +55,7 @@ def reset_registry():
     _nonzero.clear()
     _sin_to_cos.clear()
     _angle.clear()
+    _root_of.clear()
 
 
 def var_names():
@@ -100,7 +105,7 @@ def _mono_mul(a, b):
                 sign = -sign            # I*I = -1
             else:
                 e = ea + eb
-                if va in _sin_to_cos:
+                if va in _sin_to_cos or va in _root_of:
                     sq = True
                 out.append((va, e))
             i += 1
@@ -120,7 +125,6 @@ def _mono_mul(a, b):
 
 class Poly:
     __slots__ = ("t",)
-    __array_ufunc__ = None          # numpy scalars / arrays defer to our reflected operators
     __hash__ = None                 # == is semantic, not structural
 
     def __init__(self, t=None):
@@ -275,20 +279,23 @@ class Poly:
     __rmul__ = __mul__
 
     def _reduce_sin(self):
-        """rewrite s^e (e >= 2) with s^2 = 1 - c^2"""
+        """rewrite s^e (e >= 2) with s^2 = 1 - c^2 and r^e (e >= 2) with r^2 = P for root variables"""
         out = ZERO
         for m, c in self.t.items():
-            bad = [(v, e) for v, e in m if v in _sin_to_cos and e >= 2]
+            bad = [(v, e) for v, e in m if (v in _sin_to_cos or v in _root_of) and e >= 2]
             if not bad:
                 out = out + Poly({m: c})
                 continue
-            rest = tuple((v, e) for v, e in m if not (v in _sin_to_cos and e >= 2))
+            rest = tuple((v, e) for v, e in m if not ((v in _sin_to_cos or v in _root_of) and e >= 2))
             term = Poly({rest: c})
             for v, e in bad:
-                cv = _sin_to_cos[v]
-                one_minus_c2 = Poly({(): 1, ((cv, 2),): -1})
+                if v in _sin_to_cos:
+                    cv = _sin_to_cos[v]
+                    sq = Poly({(): 1, ((cv, 2),): -1})
+                else:
+                    sq = _root_of[v]
                 for _ in range(e // 2):
-                    term = term * one_minus_c2
+                    term = term * sq
                 if e % 2:
                     term = term * Poly({((v, 1),): 1})
             out = out + term
@@ -412,11 +419,18 @@ class Poly:
 
     def evalf(self, env):
         """numeric value for an assignment {variable name: float}"""
+        import cmath
         tot = 0j
         for m, c in self.t.items():
             v = complex(float(c))
             for vid, e in m:
-                v *= (1j if vid == 0 else env[_names[vid]]) ** e
+                if vid == 0:
+                    x = 1j
+                elif vid in _root_of and _names[vid] not in env:
+                    x = cmath.sqrt(_root_of[vid].evalf(env))
+                else:
+                    x = env[_names[vid]]
+                v *= x ** e
             tot += v
         return tot
 
@@ -546,22 +560,32 @@ def _isqrt_frac(q):
     return None
 
 
+def root(P):
+    """the variable denoting +sqrt(P), with the rewrite  root^2 -> P  (sound for identities; P >= 0 is assumed)"""
+    name = f"sqrt({P})"
+    vid = _new_id(name)
+    _root_of[vid] = P
+    return Poly({((vid, 1),): 1})
+
+
 def p_sqrt(p):
     p = Poly.coerce(p)
+    if not p.t:
+        return ZERO
     if p.is_real_const():
         r = _isqrt_frac(p.const_parts()[0])
         if r is not None:
             return Poly.coerce(r)
-    raise UnsupportedOp(f"sqrt of {p} (only rational perfect squares are exact)")
+        if p.const_parts()[0] < 0:
+            raise UnsupportedOp(f"sqrt of the negative constant {p}")
+    if p.has_imag():
+        raise UnsupportedOp(f"sqrt of the complex expression {p}")
+    return root(p)
 
 
 def p_abs(p):
     p = Poly.coerce(p)
     if p.is_real_const():
         return Poly.coerce(abs(p.const_parts()[0]))
-    if p.is_const():
-        re, im = p.const_parts()
-        r = _isqrt_frac(re * re + im * im)
-        if r is not None:
-            return Poly.coerce(r)
-    raise UnsupportedOp(f"abs of {p} (sign of a symbolic expression is not determined)")
+    re, im = p.real(), p.imag()
+    return p_sqrt(re * re + im * im)
